@@ -479,7 +479,7 @@ func (i *Interpreter) Exec(ctx context.Context, bs match.Bindings, props core.St
 				if _, is := r.(*goja.StackOverflowError); is {
 					err = StackOverflow
 				} else {
-					err = fmt.Errorf("%v", r)
+					err = recoveredError(r)
 				}
 			}
 		}()
@@ -629,6 +629,30 @@ func plainError(err error) (plain error) {
 		}
 	}()
 	return errors.New(err.Error())
+}
+
+// recoveredError makes an error of a recovered panic value.
+//
+// The value can be a script's exception, whose text comes from script
+// code (the thrown value's toString), which can throw in turn.  fmt
+// passes such a panic on when it is already reporting one, and a
+// panic that leaves a deferred function ends the process ("panic
+// while printing panic value"), so the text is made here, under a
+// recover of its own.
+func recoveredError(r interface{}) (err error) {
+	defer func() {
+		if r := recover(); r != nil {
+			if _, is := r.(*goja.InterruptedError); is {
+				err = Interrupted
+			} else {
+				err = errors.New("script error (the thrown value could not be rendered)")
+			}
+		}
+	}()
+	if e, is := r.(error); is {
+		return errors.New(e.Error())
+	}
+	return fmt.Errorf("%v", r)
 }
 
 func RunProgram(o *goja.Runtime, p *goja.Program) (v goja.Value, err error) {
